@@ -2,10 +2,15 @@
 Theorems: Props/C06.v (a link implies equal addresses for every register file, the register-change tracking is sound,
 shape mismatch / symbolic displacement / different displacement give no link, a later store to the operand ends the scan).
 X: Model/Deps.v = KernelDG (edges incl. store->load edges and weights) on generated store/load kernels.
+T: KernelDG.is_memload / is_memstore / _update_reg_changes / find_depending (and is_read / is_written) are regenerated from the current
+   source on every run (tools/gen_deps.py -> Gen/DepsGen.v); PropsGen/C03deps.v proves them equal to the hand model on every input of
+   the model's types, PropsGen/C06deps.v restates the C06 theorems for them; the regenerated text is cross-checked against the Python
+   methods on dumps of the real objects of this run's kernels (harness/deps_gen.py).
 Search: an independent symbolic tracker (origin register + offset per register) decides which loads provably alias the store;
 concrete executions on random register files refute spurious links."""
 import depcheck
 import deps
+import deps_gen
 
 FINISH = dict(level="proof",
               rule="generated kernels: one store, 0-3 instructions that bump / copy / clobber address registers (x86 add/sub immediate, inc/dec, "
@@ -231,6 +236,7 @@ def run(ctx):
     import models
     avail = models.nonempty_archs()
     cases = []
+    items = []          # real objects for the translator cross-check (deps_gen)
     hist = {"equal": 0, "different": 0, "killed": 0}
     pipes = {}
     n = ctx.n(220, 4000)
@@ -249,6 +255,7 @@ def run(ctx):
             ctx.violation("memdep-raises", "analysis of a store/load kernel raises %r" % e, rep)
             continue
         case["origin"] = "generated on " + arch
+        items.append((kernel, dg, isa, pipe.sem, "generated on %s: %s" % (arch, text.replace("\n", " ; "))))
         ctx.count()
         last = info["n"]
         stores = [s + 1 for s in info["store_copies"]]
@@ -307,6 +314,7 @@ def run(ctx):
             ctx.violation("memdep-raises", "analysis of a store/load kernel raises %r" % e, rep)
             continue
         case["origin"] = "scripted on " + arch
+        items.append((kernel, dg, isa, pipes[arch].sem, "scripted on %s: %s" % (arch, text.replace("\n", " ; "))))
         ctx.count()
         last = info["n"]
         links = {u: w for (u, ld, v), w in case["edges"].items() if not ld and v == last and u == 1}
@@ -339,6 +347,7 @@ def run(ctx):
             ctx.violation("memdep-raises", "analysis of a store/load kernel raises %r" % e, rep)
             continue
         case["origin"] = "write-back family on " + arch
+        items.append((kernel, dg, "aarch64", pipes[arch].sem, "write-back family on %s: %s" % (arch, text.replace("\n", " ; "))))
         ctx.count()
         last = instrs[-1].line_number
         wb_hist["equal" if eq else "different"] += 1
@@ -376,6 +385,7 @@ def run(ctx):
             ctx.violation("memdep-raises", "analysis of a store/load kernel raises %r" % e, rep)
             continue
         case["origin"] = "sub-register bump on " + arch
+        items.append((kernel, dg, isa, pipes[arch].sem, "sub-register bump on %s: %s" % (arch, text.replace("\n", " ; "))))
         cases.append(case)
         ctx.count()
         if instrs[-1].line_number in found:
@@ -396,6 +406,7 @@ def run(ctx):
                 ctx.violation("memdep-symbolic-displacement-raises", "%s: %r on %s" % (arch, e, text.replace("\n", " ; ")), {"isa": isa, "arch": arch, "text": text})
     ctx.coverage["case_kinds"] = hist
     depcheck.run_shards(ctx, cases, "generated", size=20)
+    deps_gen.run(ctx, items, ["PropsGen/C03deps.v", "PropsGen/C06deps.v"])
     regchanges(ctx)
 
 
